@@ -126,26 +126,30 @@ def twin_oracle(ctx):
         hist_desc = []
         for u in range(rng.randint(1, 4)):
             N = rng.choice([0, 1, used.frame_shift // 2, Lv // 2, Lv // 2 + 1, Lv, rng.randint(0, 4 * Lv), rng.randint(0, 40)])
-            sig = nprng.randn(N)
+            # earlier utterances may have another floating dtype than the next one (a dtype must not stick to the instance)
+            hdt = rng.choice(["float64", "float64", "float32", "float16"])
+            sig = nprng.randn(N).astype(hdt)
             sc = rand_script(N)
             drive(used, sc, sig)
-            hist_desc.append(dict(N=N, script=[list(o) for o in sc]))
+            ctx.count("twin:history_dtype=" + hdt)
+            hist_desc.append(dict(N=N, dtype=hdt, script=[list(o) for o in sc]))
         if used.started:
             used.finalize()
             hist_desc.append("finalize")
         N = rng.choice([Lv // 2 + 1, Lv, Lv + 3, rng.randint(0, 5 * Lv)])
-        sig = nprng.randn(N)
+        ndt = rng.choice(["float64", "float64", "float64", "float32"])
+        sig = nprng.randn(N).astype(ndt)
         sc = rand_script(N)
         a = drive(used, sc, sig)
         fresh = ctor()
         b = drive(fresh, sc, sig)
         ctx.count("twin:" + kind)
-        ctx.case(dict(kind=kind, args={k: str(v) for k, v in args.items()}, history=hist_desc, next=dict(N=N, script=[list(o) for o in sc])),
+        ctx.case(dict(kind=kind, args={k: str(v) for k, v in args.items()}, history=hist_desc, next=dict(N=N, dtype=ndt, script=[list(o) for o in sc])),
                  nontrivial=any(isinstance(o[0], tuple) and o[0][0] > 0 for o in a))
         if a != b:
             first = next(i for i, (p, q) in enumerate(zip(a, b)) if p != q)
             bad.append(dict(kind=kind, args={k: str(v) for k, v in args.items()}, history=hist_desc,
-                            next=dict(N=N, script=[list(o) for o in sc]), first_difference_at_op=first,
+                            next=dict(N=N, dtype=ndt, script=[list(o) for o in sc]), first_difference_at_op=first,
                             used=str(a[first][:2]), fresh=str(b[first][:2])))
     return bad
 
